@@ -140,8 +140,16 @@ func isSpecialNetProtocol(protocol string) bool {
 	return false
 }
 
+// hostWithoutPort returns u.Host without its port, keeping the brackets of an IPv6 literal.
+func hostWithoutPort(u *url.URL) string {
+	if port := u.Port(); port != "" {
+		return strings.TrimSuffix(u.Host, ":"+port)
+	}
+	return strings.TrimSuffix(u.Host, ":")
+}
+
 func clearURLPort(u *url.URL) {
-	u.Host = u.Hostname()
+	u.Host = hostWithoutPort(u)
 }
 
 func setURLPort(nu *nodeURL, v goja.Value) {
@@ -160,7 +168,7 @@ func setURLPort(nu *nodeURL, v goja.Value) {
 	if isDefaultURLPort(u.Scheme, portNum) {
 		clearURLPort(u)
 	} else {
-		u.Host = u.Hostname() + ":" + strconv.Itoa(portNum)
+		u.Host = hostWithoutPort(u) + ":" + strconv.Itoa(portNum)
 	}
 }
 
@@ -181,8 +189,10 @@ func (m *urlModule) parseURL(s string, isBase bool) *url.URL {
 	}
 	if portStr := u.Port(); portStr != "" {
 		if port, err := strconv.Atoi(portStr); err != nil || isDefaultURLPort(u.Scheme, port) {
-			u.Host = u.Hostname() // Clear port
+			clearURLPort(u)
 		}
+	} else {
+		clearURLPort(u) // "host:" has no port
 	}
 	m.fixURL(u)
 	return u
@@ -207,11 +217,15 @@ func cleanPath(p, proto string) string {
 func (m *urlModule) fixURL(u *url.URL) {
 	u.Path = cleanPath(u.Path, u.Scheme)
 	if isSpecialNetProtocol(u.Scheme) {
-		hostname := u.Hostname()
+		hostname := hostWithoutPort(u)
 		lh := strings.ToLower(hostname)
-		ch, err := idna.Punycode.ToASCII(lh)
-		if err != nil {
-			panic(m.newInvalidURLError(InvalidHostname, lh))
+		ch := lh
+		if !strings.HasPrefix(lh, "[") { // not an IPv6 literal
+			var err error
+			ch, err = idna.Punycode.ToASCII(lh)
+			if err != nil {
+				panic(m.newInvalidURLError(InvalidHostname, lh))
+			}
 		}
 		if ch != hostname {
 			if port := u.Port(); port != "" {
@@ -254,7 +268,7 @@ func (m *urlModule) createURLPrototype() *goja.Object {
 
 	// hostname
 	m.defineURLAccessorProp(p, "hostname", func(u *nodeURL) interface{} {
-		return strings.Split(u.url.Host, ":")[0]
+		return hostWithoutPort(u.url)
 	}, func(u *nodeURL, arg goja.Value) {
 		h := arg.String()
 		if strings.IndexByte(h, ':') >= 0 {
